@@ -139,9 +139,15 @@ claimed = {
             'it is a no-op. The model\'s number of allocation points per operation is compared with the implementation, on which the '
             'guarantee itself is enumerated exhaustively: every allocation point of every insert/remove of the C01 histories is failed '
             'once with the library\'s own injector (assertion-enabled build) on db, mutex_db, olc_db and both key kinds, comparing dump, '
-            'statistics, scan and the live allocation set; plus over-long key/value probes and QSBR start / resume / request failures.',
-            '5 C08', 'Trusted: Coq 8.16.1 kernel, no axioms; the model assumes what the enumeration checks on the code (all allocations of an '
-            'operation precede its first change); library injector semantics; OLC with a single registered thread; hooks for the live '
+            'statistics, scan and the live allocation set; plus over-long key/value probes and QSBR start / resume / request failures. '
+            'C08b_* (added): the ORDER of allocation, statistics updates, ownership (unique_ptr guards and their deleters) and publication in '
+            'db::insert_internal / remove_internal and everything they call is regenerated from the clang AST on every run as a tree of effect '
+            'tokens; for every table accepted by the boolean fault_safe (kernel-checked on the regenerated table) a throw at ANY allocation point '
+            'of ANY path unwinds to exactly the initial state (stores, statistics, blocks held, owners), nothing can throw after the first '
+            'publication, no noexcept frame is crossed, and the allocation counts per path match the model.',
+            '5 C08', 'Trusted: Coq 8.16.1 kernel, no axioms; the allocate-then-commit model assumes what C08b derives from the source for db and what the '
+            'enumeration checks on the code for all three classes (all allocations of an operation precede its first change); tools/fault2v.py '
+            'classifies calls by name; library injector semantics; OLC with a single registered thread; hooks for the live '
             'allocation set.', 'Coq proof over a fault model + exhaustive fault enumeration on the implementation + allocation-count correspondence'),
     'C16': ('proof', 'Coq theorems: the SIMD child search / insert position / free-slot variants (modelled at mask and lane-group level) equal '
             'the list-level functions of the model, and the model\'s results do not depend on the statistics component. Tie '
